@@ -350,10 +350,59 @@ class _Concat(ast.NodeTransformer):
         return ast.copy_location(new, node)
 
 
+def _format_to_fstring(c: ast.Call):
+    """`"a{}b{}".format(x, y)` with nothing but bare `{}` fields and positional arguments -> the f-string f"a{x}b{y}" """
+    f = c.func
+    if not (isinstance(f, ast.Attribute) and f.attr == "format" and isinstance(f.value, ast.Constant) and isinstance(f.value.value, str)) or c.keywords:
+        return None
+    if any(isinstance(a, ast.Starred) for a in c.args):
+        return None
+    text = f.value.value
+    import string
+
+    try:
+        fields = list(string.Formatter().parse(text))
+    except ValueError:
+        return None
+    values = []
+    k = 0
+    for lit, name, spec, conv in fields:
+        if lit:
+            values.append(ast.Constant(value=lit))
+        if name is None:
+            continue
+        if name != "" or spec or conv not in (None, "r", "s"):
+            return None
+        if k >= len(c.args):
+            return None
+        values.append(ast.FormattedValue(value=c.args[k], conversion={None: -1, "r": 114, "s": 115}[conv], format_spec=None))
+        k += 1
+    if k != len(c.args):
+        return None
+    return ast.copy_location(ast.JoinedStr(values=values), c)
+
+
+class _Format(ast.NodeTransformer):
+    def __init__(self):
+        self.count = 0
+
+    def visit_Call(self, c):
+        self.generic_visit(c)
+        j = _format_to_fstring(c)
+        if j is not None:
+            self.count += 1
+            return j
+        return c
+
+
 def canonicalise_text_building(tree: ast.Module) -> int:
-    """`"a" + str(x) + "b"` (literals, f-strings and str(...) joined by +) is written as the f-string f"a{x}b"."""
+    """`"a" + str(x) + "b"` (literals, f-strings and str(...) joined by +) is written as the f-string f"a{x}b";
+    `"a{}b".format(x)` with bare fields likewise."""
+    fm = _Format()
+    fm.visit(tree)
     t = _Concat()
     t.visit(tree)
+    t.count += fm.count
     ast.fix_missing_locations(tree)
     return t.count
 
